@@ -24,6 +24,15 @@ CHECKS = {
     "C12": ("exploration", "proptest stateful writer/reader model over save, save_incremental, save_after, load_incremental in order / shuffled / repeated",
             "Append-only file model: full save plus later pieces must load to the writer's state; readers fed pieces in any order converge; re-feeding is a no-op.",
             "A new full save closes the previous file (incremental cursor restarts).", "3/C12"),
+    "C05": ("exploration", "proptest histories + generated delivery schedules; invariant after every delivery against harness-side causal closure",
+            "Out-of-order, partial and mixed-path delivery (apply_changes, load_incremental, crafted sync message): heads, applied set, full state and get_missing_deps are compared after every delivery with the largest causally closed subset computed by the harness.",
+            "Reference state = fresh document given the closed subset topologically.", "3/C05"),
+    "C06": ("exploration", "proptest stateful fault scenarios (duplicate actor/seq branches, invalid transaction calls, corrupted incremental bytes); snapshot-equality and twin-run oracle",
+            "Every call that returns Err must leave heads, full observation, retained-orphan save bytes, get_missing_deps and pending_ops unchanged; a twin that skips failing calls must end equal; final load(save()) equal.",
+            "One known finding (DuplicateSeqNumber error path prunes the queue) is excluded by signature and counted.", "3/C06"),
+    "C38": ("exploration", "proptest stateful scenario: two branches of one actor offered through every ingestion path; invariant after every step",
+            "(actor, seq) uniqueness and contiguity, readability and save/load consistency after every delivery, whatever it returned.",
+            "Which branch wins is not asserted.", "3/C38"),
 }
 
 PENDING = {}
